@@ -6,6 +6,7 @@ CONSTANTS
   Das = {2, 3}
   Rs = {1}
   JointQ = FALSE
+  Bound = TRUE
   Offs = {0, 1, 2}
 INIT Init
 NEXT Next
